@@ -339,13 +339,16 @@ impl EncCase for ReqResolveUuid {
     }
 }
 
-/// Routing Information Update with exactly `N` (<= 10) entries of arbitrary raw
+/// Backing array size of the routing harness (N <= RT).
+pub const RT: usize = 72;
+
+/// Routing Information Update with exactly `N` (<= RT) entries of arbitrary raw
 /// content. The entries live in a fixed 10-element backing array and the call
 /// gets `&entries[..N]` (an empty `[T; 0]` has a dangling pointer, which makes
 /// CBMC unroll the library's `for` loop up to the unwind bound: slow, not wrong).
 pub struct RoutingArgs<const N: usize> {
     pub dest: u8,
-    pub raw: [[u8; 4]; 10],
+    pub raw: [[u8; 4]; RT],
 }
 pub struct ReqRouting<const N: usize>;
 impl<const N: usize> EncCase for ReqRouting<N> {
@@ -353,7 +356,7 @@ impl<const N: usize> EncCase for ReqRouting<N> {
     const NAME: &'static str = "routing_information_update";
     fn draw<S: Src>(s: &mut S) -> RoutingArgs<N> {
         let dest = s.u8();
-        let mut raw = [[0u8; 4]; 10];
+        let mut raw = [[0u8; 4]; RT];
         let mut i = 0;
         while i < N {
             raw[i] = s.arr();
@@ -365,9 +368,8 @@ impl<const N: usize> EncCase for ReqRouting<N> {
         a.dest
     }
     fn call(ctx: &MCTPSMBusContext, a: &RoutingArgs<N>, buf: &mut [u8]) -> Result<usize, ()> {
-        let r = &a.raw;
-        let nb = SMBusRoutingInformationUpdateEntry::new_from_buf;
-        let entries = [nb(r[0]), nb(r[1]), nb(r[2]), nb(r[3]), nb(r[4]), nb(r[5]), nb(r[6]), nb(r[7]), nb(r[8]), nb(r[9])];
+        let entries: [SMBusRoutingInformationUpdateEntry<[u8; 4]>; RT] =
+            core::array::from_fn(|i| SMBusRoutingInformationUpdateEntry::new_from_buf(a.raw[i]));
         ctx.get_request().routing_information_update(a.dest, &entries[..N], buf)
     }
     fn expect(a: &RoutingArgs<N>, _e: u8) -> Expect {
@@ -620,6 +622,50 @@ impl<const F: u8, const L: usize> EncCase for VendorDefined<F, L> {
             e.ok = false; // documented: other formats are refused
             e
         }
+    }
+}
+
+pub struct VendorSymArgs<const MAX: usize> {
+    pub dest: u8,
+    pub data: u32,
+    pub numeric: u16,
+    pub msg: [u8; MAX],
+    pub n: usize,
+}
+/// `vendor_defined` (format `F` 0/1) with a message of *symbolic* length 0..=MAX (thorough tier):
+/// every packet length in a dense range instead of spot sizes.
+pub struct VendorSym<const F: u8, const MAX: usize>;
+impl<const F: u8, const MAX: usize> EncCase for VendorSym<F, MAX> {
+    type Args = VendorSymArgs<MAX>;
+    const NAME: &'static str = "vendor_defined";
+    fn draw<S: Src>(s: &mut S) -> VendorSymArgs<MAX> {
+        let n = s.usize();
+        s.assume(n <= MAX);
+        VendorSymArgs { dest: s.u8(), data: s.u32(), numeric: s.u16(), msg: s.arr(), n }
+    }
+    fn dest(a: &VendorSymArgs<MAX>) -> u8 {
+        a.dest
+    }
+    fn call(ctx: &MCTPSMBusContext, a: &VendorSymArgs<MAX>, buf: &mut [u8]) -> Result<usize, ()> {
+        let f = VendorIDFormat { format: F, data: a.data, numeric_value: a.numeric };
+        ctx.get_request().vendor_defined(a.dest, &f, &a.msg[..a.n], buf)
+    }
+    fn expect(a: &VendorSymArgs<MAX>, _eid: u8) -> Expect {
+        let mut e = Expect::new(Kind::Message, if F == 0 { 0x7E } else { 0x7F });
+        if F == 1 {
+            e.push((a.data >> 24) as u8);
+            e.push((a.data >> 16) as u8);
+        }
+        e.push((a.data >> 8) as u8);
+        e.push(a.data as u8);
+        let mut i = 0;
+        while i < MAX {
+            if i < a.n {
+                e.push(a.msg[i]);
+            }
+            i += 1;
+        }
+        e.finish()
     }
 }
 
